@@ -73,7 +73,7 @@ INCLUDES = {
     "C02": "Also runs C15's rules on Frame::read (the second decoding entry point hands the unmodified line to from_bytes), as C02.read(..).",
     "C05": "The frame<->bytes leg is decided by running C01's codec rule set as part of this check, as C05.wire(..).",
     "C08": "The data plane is decided by running the component rule sets as part of this check: C09.O2-O4 (chunking), C13.O2 (reassembly), C07.O1/O3 (page length), as C08.data(..); that the bus hands every message to the sign and returns its reply (C14.O4) and that no sign handler panics (C12) are legs of the composition too, as C08.bus(..) / C08.total(..). The sign-type block (C19 tables) is a leg too, as C08.type(..). Controller and sign are extracted at both extremes of the log level.",
-    "C13": "What a complete page of the configured size is (Page::from_bytes / Page::new, C07.O1/O3) is decided here too, as C13.page(..).",
+    "C13": "What a complete page of the configured size is (Page::from_bytes / Page::new, C07.O1/O3) is decided here too, as C13.page(..); the size a sign derives from a configuration block (C19.O3) as C13.dims(..).",
     "C06": "The Page length invariant the in-bounds panic freedom rests on is decided here too, by running C07.O1/O3 (constructors) as C06.layout(..).",
     "C09": "What an item is lies outside the transfer routine: page bytes (C07.O1/O3) and the configuration block (C19.O1) are decided here too, as C09.page(..) / C09.block(..).",
     "C10": "The automaton abstracts the data messages; their contents, offsets and count (C09, with C07.O1/O3 and C19.O1) are decided here too, as C10.data(..).",
